@@ -65,10 +65,12 @@ def oracle(req, impl):
         if t[0] != "ok":
             return f"parse+eval of a grammatical string failed: {impl}"
         got = tok_frac(t[1])
-        if got is None:
-            return "value is not finite"
         want = sum(c * x ** k for k, c in dense.items())
         scale = sum(absd[k] * abs(x) ** k for k in absd)
+        if got is None:
+            # overflow of a term or of a power x^k beyond the binary64 range is not a misreading
+            big = max([abs(x) ** k for k in absd] + [scale])
+            return None if big > Fraction(2) ** 1000 else "value is not finite"
         tol = 64 * U * (len(extra) + 2) * scale + Fraction(1, 2 ** 1000)
         if abs(got - want) > tol:
             return f"value at {float(x)!r} is {float(got)!r}, the string means {float(want)!r}"
@@ -80,10 +82,11 @@ def oracle(req, impl):
         if t[0] != "ok":
             return f"evaluation failed: {impl}"
         got = tok_frac(t[1])
-        if got is None:
-            return "value is not finite"
         want = sum(c * x ** k for k, c in enumerate(cs))
         scale = sum(abs(c) * abs(x) ** k for k, c in enumerate(cs))
+        if got is None:
+            big = max([abs(x) ** k for k in range(len(cs))] + [scale])
+            return None if big > Fraction(2) ** 1000 else "value is not finite"
         tol = 64 * U * (n + 2) * scale + Fraction(1, 2 ** 1000)
         if abs(got - want) > tol:
             return f"eval at {float(x)!r} is {float(got)!r}, sum c_k x^k is {float(want)!r}"
